@@ -3,6 +3,8 @@
 use crate::engine::Property;
 
 pub mod c03;
+pub mod c01;
+pub mod c02;
 pub mod c04;
 pub mod c05;
 pub mod c06;
@@ -38,7 +40,7 @@ pub mod sched;
 pub mod seqx;
 
 pub fn all() -> Vec<&'static dyn Property> {
-    vec![&c03::C03, &c04::C04, &c05::C05, &c06::C06, &c07::C07, &c08::C08, &c09::C09, &c10::C10, &c11::C11, &c12::C12, &c13::C13, &c14::C14, &c15::C15, &c16::C16, &c17::C17, &c18::C18, &c19::C19, &seqx::C20, &seqx::C21, &c22::C22, &c23::C23, &c24::C24, &c25::C25, &c26::C26, &c27::C27, &c28::C28, &c29::C29, &c30::C30, &c31::C31, &c32::C32, &c33::C33, &c34::C34, &c35::C35]
+    vec![&c03::C03, &c01::C01, &c02::C02, &c04::C04, &c05::C05, &c06::C06, &c07::C07, &c08::C08, &c09::C09, &c10::C10, &c11::C11, &c12::C12, &c13::C13, &c14::C14, &c15::C15, &c16::C16, &c17::C17, &c18::C18, &c19::C19, &seqx::C20, &seqx::C21, &c22::C22, &c23::C23, &c24::C24, &c25::C25, &c26::C26, &c27::C27, &c28::C28, &c29::C29, &c30::C30, &c31::C31, &c32::C32, &c33::C33, &c34::C34, &c35::C35]
 }
 
 pub fn find(id: &str) -> Option<&'static dyn Property> {
